@@ -1,0 +1,170 @@
+// This Source Code Form is subject to the terms of the Mozilla Public
+// License, v. 2.0. If a copy of the MPL was not distributed with this
+// file, You can obtain one at http://mozilla.org/MPL/2.0/.
+//
+// Copyright (c) DUSK NETWORK. All rights reserved.
+
+//! Verification hooks on the composer (cargo feature `verif`): a read-only
+//! snapshot, witness/wire overrides for adversarial assignments, a raw-row
+//! constructor, and seams over the `pub(super)` gate emitters.
+
+#![allow(missing_docs)]
+
+use alloc::vec::Vec;
+
+use dusk_bls12_381::BlsScalar;
+use dusk_jubjub::{JubJubAffine, JubJubExtended};
+
+use super::{
+    Composer, Constraint, Selector, WireData, Witness, WitnessPoint,
+};
+use crate::error::Error;
+use crate::verif::{GateRow, Snapshot};
+
+impl Composer {
+    pub fn verif_snapshot(&self) -> Snapshot {
+        let gates = self
+            .constraints
+            .iter()
+            .map(|g| GateRow {
+                sel: [
+                    g.q_m,
+                    g.q_l,
+                    g.q_r,
+                    g.q_o,
+                    g.q_f,
+                    g.q_c,
+                    g.q_arith,
+                    g.q_range,
+                    g.q_logic,
+                    g.q_fixed_group_add,
+                    g.q_variable_group_add,
+                ],
+                w: [g.a.index(), g.b.index(), g.c.index(), g.d.index()],
+            })
+            .collect();
+        let mut public_inputs: Vec<(usize, BlsScalar)> =
+            self.public_inputs.iter().map(|(k, v)| (*k, *v)).collect();
+        public_inputs.sort_by_key(|(k, _)| *k);
+
+        Snapshot {
+            gates,
+            witnesses: self.witnesses.clone(),
+            public_inputs,
+        }
+    }
+
+    pub fn verif_witness(index: usize) -> Witness {
+        Witness::new(index)
+    }
+
+    pub fn verif_witness_count(&self) -> usize {
+        self.witnesses.len()
+    }
+
+    pub fn verif_point(x: Witness, y: Witness) -> WitnessPoint {
+        WitnessPoint::new(x, y)
+    }
+
+    /// Overwrite the value of an allocated witness.
+    pub fn verif_set_witness(&mut self, w: Witness, v: BlsScalar) {
+        self.witnesses[w.index()] = v;
+    }
+
+    /// Re-wire one cell (`wire`: 0 = a, 1 = b, 2 = c, 3 = d) of an emitted
+    /// row to another allocated witness.
+    pub fn verif_set_gate_wire(&mut self, row: usize, wire: usize, w: Witness) {
+        let gate = &mut self.constraints[row];
+        let (old, data) = match wire {
+            0 => (core::mem::replace(&mut gate.a, w), WireData::Left(row)),
+            1 => (core::mem::replace(&mut gate.b, w), WireData::Right(row)),
+            2 => (core::mem::replace(&mut gate.c, w), WireData::Output(row)),
+            _ => (core::mem::replace(&mut gate.d, w), WireData::Fourth(row)),
+        };
+        if let Some(v) = self.perm.witness_map.get_mut(&old) {
+            if let Some(pos) = v.iter().position(|d| *d == data) {
+                v.remove(pos);
+            }
+        }
+        self.perm.add_witness_to_map(w, data);
+    }
+
+    /// Overwrite the value of a public input already recorded on `row`.
+    pub fn verif_set_public_input(&mut self, row: usize, v: BlsScalar) {
+        if let Some(pi) = self.public_inputs.get_mut(&row) {
+            *pi = v;
+        }
+    }
+
+    /// Append a row with arbitrary selectors (order as in
+    /// [`GateRow::sel`]), bypassing `Constraint::arithmetic` & co.
+    pub fn verif_append_raw(
+        &mut self,
+        sel: [BlsScalar; 11],
+        pi: Option<BlsScalar>,
+        w: [Witness; 4],
+    ) {
+        let mut c = Constraint::default()
+            .set(Selector::Multiplication, sel[0])
+            .set(Selector::Left, sel[1])
+            .set(Selector::Right, sel[2])
+            .set(Selector::Output, sel[3])
+            .set(Selector::Fourth, sel[4])
+            .set(Selector::Constant, sel[5])
+            .set(Selector::Arithmetic, sel[6])
+            .set(Selector::Range, sel[7])
+            .set(Selector::Logic, sel[8])
+            .set(Selector::GroupAddFixedBase, sel[9])
+            .set(Selector::GroupAddVariableBase, sel[10])
+            .a(w[0])
+            .b(w[1])
+            .c(w[2])
+            .d(w[3]);
+        if let Some(pi) = pi {
+            c = c.public(pi);
+        }
+        self.append_custom_gate(c);
+    }
+
+    pub fn verif_range_check(&mut self, value: Witness, num_bits: usize) {
+        self.range_check(value, num_bits)
+    }
+
+    pub fn verif_bind_truncation_split(
+        &mut self,
+        input: Witness,
+        low: Witness,
+        num_bits: usize,
+    ) {
+        self.bind_truncation_split(input, low, num_bits)
+    }
+
+    pub fn verif_add_point_gates(
+        &mut self,
+        a: WitnessPoint,
+        b: WitnessPoint,
+    ) -> WitnessPoint {
+        self.add_point_gates(a, b)
+    }
+
+    pub fn verif_assert_torsion_free_gates(
+        &mut self,
+        point: WitnessPoint,
+        q: JubJubAffine,
+    ) {
+        self.assert_torsion_free_gates(point, q)
+    }
+
+    pub fn verif_fixed_base_signed_digits(
+        &mut self,
+        jubjub: Witness,
+        generator: JubJubExtended,
+        signed_digits: &[i8; 256],
+    ) -> Result<WitnessPoint, Error> {
+        self.append_fixed_base_signed_digits(jubjub, generator, signed_digits)
+    }
+
+    pub fn verif_assert_canonical_jubjub_scalar(&mut self, scalar: Witness) {
+        self.assert_canonical_jubjub_scalar(scalar)
+    }
+}
